@@ -20,6 +20,8 @@ def run(repo, res, tier):
     decrules.rule_n2(repo, res)
     tablerules.rule_tb2_tb4(repo, res)
     tablerules.rule_tb5(repo, res)
+    from .. import pairrules
+    pairrules.rule_pair(repo, res)
     from .. import hookrules as _hk
     _hk.rule_token_init(repo, res)
     hookrules.rule_aggcls(repo, res, rule="AGG")
